@@ -152,4 +152,49 @@ theorem dedicated_sram_cascade_within_limit (b : Builder) (ref fb : CostMap) (li
   obtain ⟨l, first, _, _, _, _, _, _, h7⟩ := (hinv.good ci hci).ex
   exact h7 hs
 
+/-! ## (d) the memory snapshot -/
+
+/-- **snapshot_is_temporal_usage (d).**  `update_op_memory_snapshot` stores `get_temporal_memory_usage` of the ranges it
+    extracts.  For every list of ranges (any times, sizes, memory areas) and every `current_time`: when the function
+    returns (its assertion `end_time <= get_endtime() + 1` holds) and no tick holds 2 GiB or more (`np.int32` array), the
+    snapshot has `current_time + 2` entries and entry `t` is the sum of the sizes of the ranges of the target area alive at
+    `t` — `Spec.SchedMem.SnapshotCorrect`.  (Serves "reported memory is sufficient" of C12: the reported peak, the
+    non-local usage and every slack the scheduler computes are read from this array.) -/
+theorem snapshot_is_temporal_usage (lrs : List TLR) (ct : Nat) (u : List Int)
+    (hb : ∀ t, Spec.SchedMem.usageAt (lrs.filterMap TLR.toRng) t < 2147483648) (h : temporalUsage lrs ct = .ok u) :
+    u.length = ct + 2 ∧ Spec.SchedMem.SnapshotCorrect (lrs.filterMap TLR.toRng) u := by
+  have hb' : ∀ t, tlrUsage lrs t < 2147483648 := by intro t; rw [← usageAt_toRng]; exact hb t
+  obtain ⟨hl, hv⟩ := temporalUsage_val lrs ct u hb' h
+  refine ⟨hl, ?_⟩
+  intro t ht
+  have := hv t (by omega)
+  rw [usageAt_toRng, ← this]
+  simp [val, List.getD, ht]
+
+/-- the peak the scheduler compares with the SRAM target is the largest number of bytes in use -/
+theorem peakUsage_ge (u : List Int) (t : Nat) (ht : t < u.length) : u[t] ≤ peakUsage u := by
+  unfold peakUsage
+  have gen : ∀ (l : List Int) (acc : Int) (i : Nat) (hi : i < l.length), l[i] ≤ l.foldl max acc ∧ acc ≤ l.foldl max acc := by
+    intro l
+    induction l with
+    | nil => intro acc i hi; simp at hi
+    | cons a r ih =>
+      intro acc i hi
+      simp only [List.foldl_cons]
+      have hacc : ∀ (l : List Int) (acc : Int), acc ≤ l.foldl max acc := by
+        intro l; induction l with
+        | nil => intro acc; simp
+        | cons b r ih2 => intro acc; simp only [List.foldl_cons]; exact Int.le_trans (Int.le_max_left _ _) (ih2 _)
+      cases i with
+      | zero => exact ⟨Int.le_trans (Int.le_max_right _ _) (hacc r _), Int.le_trans (Int.le_max_left _ _) (hacc r _)⟩
+      | succ j =>
+        have := ih (max acc a) j (by simpa using hi)
+        exact ⟨by simpa using this.1, Int.le_trans (Int.le_max_left _ _) this.2⟩
+  exact (gen u 0 t ht).1
+
+/-- **snapshot_wraps_witness.**  Without the bound the entries are not the bytes in use: two ranges of 2147483632 and 32
+    bytes alive together give a negative entry (`np.int32`). -/
+theorem snapshot_wraps_witness :
+    temporalUsage [⟨0, 2, 2147483632, true⟩, ⟨0, 2, 32, true⟩] 0 = .ok [-2147483632, -2147483632] := by rfl
+
 end VelaVerif.Props.C12Sched
